@@ -571,6 +571,13 @@ func (tt *TermTable) PrefixOf(p, s *Term) *Term {
 	return tt.mk("str.prefixof", SBool, "", 0, p, s)
 }
 
+func (tt *TermTable) StrContains(s, sub *Term) *Term {
+	if s.op == "str" && sub.op == "str" {
+		return tt.Bool(strings.Contains(s.s, sub.s))
+	}
+	return tt.mk("str.contains", SBool, "", 0, s, sub)
+}
+
 func (tt *TermTable) StrLt(a, b *Term) *Term {
 	if a.op == "str" && b.op == "str" {
 		return tt.Bool(a.s < b.s)
